@@ -94,6 +94,7 @@ func checkC10(p *Prog, r *Report) {
 	r.rule("R10.3", "Left-overs are reused, avoided or removed under the audited conditions (tables/guards.tsv rows listing C10): fresh names and ids are tested against the names on the DEVICE (genUniqRuleNames / genUniqGroupNames of PAN-OS and NSX, generateNamesForTransfer.setName of Cisco); an identical group found on the device is taken over only if not already needed (findGroupOnDevice, equalizedGroups, adaptGroup); deletion candidates are the objects that are not needed and carry a generated name or are marked toDelete (deleteUnused and its protecting walk).")
 	ruleGuardTable(p, r, "R10.3", "C10")
 	ruleLookupsAudited(p, r, "R10.4", "C10", 20)
+	ruleSaveScope(p, m, r, "R10.5")
 	{
 		all := map[string]bool{"cisco": true, "asa": true, "ios": true, "panos": true, "nsx": true, "linux": true}
 		// a resumed run plans from what it reads now: no early exit, cache or reused buffer that the audited planner does not have
